@@ -286,7 +286,12 @@ class BitCrcCalculator:
         self._crc_register.update(data)
         return self._crc_register.digest()
 
-    def verify_checksum(self, data: bitarray, expected_checksum: int) -> bool:
+    def verify_checksum(
+        self, data: bitarray, expected_checksum: Union[int, bitarray]
+    ) -> bool:
+        if isinstance(expected_checksum, bitarray):
+            # the form calculate_checksum returns
+            expected_checksum = ba2int(expected_checksum)
         return ba2int(self.calculate_checksum(data)) == expected_checksum
 
 
